@@ -209,7 +209,10 @@ def run_server(fr, has_pub, raises, lenreq):
             subs.append(1)
 
     try:
-        loop.run(lambda: RSocketServer(t, handler_factory=H, lease_publisher=(Pub() if has_pub else None)))
+        # whether the server ITSELF honours leases as a requester has no bearing on how it answers a SETUP: vary it
+        import zlib
+        honor = bool(zlib.crc32(repr(sorted((k, repr(v)) for k, v in fr.items())).encode()) & 1)
+        loop.run(lambda: RSocketServer(t, handler_factory=H, lease_publisher=(Pub() if has_pub else None), honor_lease=honor))
         loop.settle()
         t.inject_frame(FR.build(fr).serialize())
         loop.settle()
